@@ -608,7 +608,20 @@ pub fn judge_l(case: &LCase, end: &SimEnd, o: &LObs) -> LVerdict {
             return LVerdict { violations: v, inconclusive: false, probes };
         }
         SimEnd::StepBound => {
-            return LVerdict { violations: v, inconclusive: true, probes };
+            // more than 10x the scheduler steps of the largest legitimate run: some server thread keeps
+            // running without the system ever coming to rest (e.g. a worker spinning on a dead
+            // connection). That contradicts every property decided on this scenario.
+            for p in ["C01", "C02", "C06", "C13", "C15"] {
+                v.push(viol(
+                    p,
+                    "livelock",
+                    format!(
+                        "the server never came to rest: {} scheduler steps without quiescence (a thread keeps running although no input arrives and no time passes)",
+                        crate::sched::MAX_STEPS
+                    ),
+                ));
+            }
+            return LVerdict { violations: v, inconclusive: false, probes };
         }
     }
     if o.conns.len() != case.conns.len() {
@@ -1041,6 +1054,20 @@ fn judge_c15(case: &LCase, o: &LObs, v: &mut Vec<Violation>, probes: &mut Vec<(&
                         }
                     }
                 }
+                // nobody ever came: the timeout is due exactly one idle period after the start
+                // (signals interrupting the wait must not stretch it)
+                if fast && last_accept.is_none() && dt > case.idle_timeout * 1000 + 100 {
+                    v.push(viol(
+                        "C15",
+                        "timeout-late",
+                        format!(
+                            "nobody ever connected, idle_timeout is {} s, yet listen() only decided Timeout at t={} ms{}",
+                            case.idle_timeout,
+                            dt,
+                            if injected_signal { " [signals kept interrupting select]" } else { "" }
+                        ),
+                    ));
+                }
                 // a timeout poll that returned after the stop flag was set must see the flag
                 if let Some((sseq, st)) = o.stop_set {
                     if dseq > sseq {
@@ -1137,7 +1164,7 @@ fn judge_c15(case: &LCase, o: &LObs, v: &mut Vec<Violation>, probes: &mut Vec<(&
         }
     }
     // T4: promptness (fast-CPU mode: draining takes no simulated time)
-    if fast && natural && !injected_signal {
+    if fast && natural {
         let all_served = o
             .conns
             .iter()
@@ -1232,7 +1259,7 @@ pub fn eval_l(case: &LCase) -> RunResult {
         sim_ms: o.end_time,
         steps: stats.steps,
         log_hash: lh.0,
-        inconclusive: vd.inconclusive || matches!(end, SimEnd::StepBound),
+        inconclusive: vd.inconclusive,
         sample: Some(json!({
             "scenario": "L",
             "listen": {"initial": case.initial, "max": case.max, "idle_timeout_s": case.idle_timeout, "stop_flag": case.stop_flag, "slow_clock_pct": case.slow_clock},
@@ -1658,7 +1685,11 @@ pub fn c02_spaces(tier: Tier) -> Vec<Space> {
                 let steps = cut_steps(0, s.len(), &cuts, &wait);
                 let mut conn = LConn::healthy(s);
                 if rng.chance(1, 2) {
-                    conn.srv_read_plan = (0..rng.range(1, 40)).map(|_| rng.range(1, 50) as u16).collect();
+                    // short reads, and now and then a signal: read() returns EINTR
+                    let eintr = rng.chance(1, 3);
+                    conn.srv_read_plan = (0..rng.range(1, 40))
+                        .map(|_| if eintr && rng.chance(1, 5) { 0 } else { rng.range(1, 50) as u16 })
+                        .collect();
                 }
                 Case::L(LCase::single(cfg, conn, steps, SchedCfg::random(&mut rng, 1)))
             }),
@@ -1755,7 +1786,19 @@ pub fn c06_spaces(tier: Tier) -> Vec<Space> {
             }
             let mut bad = token_stream(&cfg, &[crate::alphabet::Kind(crate::alphabet::Base::Echo, crate::alphabet::Flags::NONE)], 0);
             bad.extend_from_slice(&victim);
-            bad.extend(token_stream(&cfg, &[crate::alphabet::Kind(crate::alphabet::Base::GetInfo, crate::alphabet::Flags::NONE)], 0));
+            if rng.chance(1, 4) {
+                // the peer goes away in the middle of a message: the stream ends without a NUL
+                while bad.last() == Some(&0) {
+                    bad.pop();
+                }
+                let keep = bad.len() - rng.usize(victim.len().min(bad.len()) / 2 + 1);
+                bad.truncate(keep.max(1));
+                if bad.last() == Some(&0) {
+                    bad.push(b'{');
+                }
+            } else {
+                bad.extend(token_stream(&cfg, &[crate::alphabet::Kind(crate::alphabet::Base::GetInfo, crate::alphabet::Flags::NONE)], 0));
+            }
             let red = crate::alphabet::reduced();
             let k1: Vec<_> = (0..rng.range(1, 4)).map(|_| *rng.pick(&red)).collect();
             let k2: Vec<_> = (0..rng.range(1, 3)).map(|_| *rng.pick(&red)).collect();
@@ -1819,6 +1862,17 @@ pub fn c13_plan(tier: Tier) -> Plan {
                 for i in 0..nconn {
                     let mut c = random_conn(&mut rng, &cfg, i, &full);
                     if fault_cfg {
+                        // signals: reads and writes of this connection's worker may return EINTR
+                        if rng.chance(1, 4) {
+                            for x in c.srv_read_plan.iter_mut().chain(c.srv_write_plan.iter_mut()) {
+                                if rng.chance(1, 5) {
+                                    *x = 0;
+                                }
+                            }
+                            if c.srv_read_plan.is_empty() {
+                                c.srv_read_plan = vec![0, 0];
+                            }
+                        }
                         match rng.below(10) {
                             0 => {
                                 // says nothing
@@ -1909,7 +1963,7 @@ pub fn c15_plan(tier: Tier) -> Plan {
     // systematic histories
     {
         let cfg = cfg.clone();
-        let hist = 9u64;
+        let hist = 12u64;
         let idle = [0u64, 1, 2];
         let stopm = 5u64; // absent, present-never-set, set before, set during, set after
         let pools = [(1usize, 1usize), (1, 4), (2, 2), (3, 4)];
@@ -1945,7 +1999,7 @@ pub fn c15_plan(tier: Tier) -> Plan {
             exhaustive: false,
             gen: Box::new(move |_idx, seed| {
                 let mut rng = Rng::new(seed);
-                let h = rng.below(9);
+                let h = rng.below(12);
                 let it = rng.below(3);
                 let sm = rng.below(5);
                 let (initial, max) = *rng.pick(&[(1usize, 1usize), (1, 4), (2, 2), (3, 4)]);
@@ -1956,7 +2010,7 @@ pub fn c15_plan(tier: Tier) -> Plan {
     }
     Plan {
         spaces,
-        rule: "L with the simulated clock: idle_timeout {0,1,2} s x stop flag {absent, present but never set, set before / during / after the connections} x pools {(1,1),(1,4),(2,2),(3,4)} x fast-CPU / slow-thread clock x connection histories {none; one short; arrival just before the idle deadline; long-lived across several deadlines; closing exactly at the deadline; streaming reply blocked on a full window when the flag is set; arrivals every 50 ms for 3 s after the flag; burst of connections then silence; client vanishing mid-message} x seeded schedules; a second batch injects signals into select (EINTR) at random points. Oracles on simulated milliseconds: Timeout only with idle_timeout>0 and >= idle_timeout since the last accept, never while a connection is in service (fast-CPU mode), Ok only and always once the flag is set, no accept starting > 1 s after the flag takes a connection, listen returns only after every accepted connection was closed by its worker with complete replies, promptly (fast-CPU mode), and it does return.".into(),
+        rule: "L with the simulated clock: idle_timeout {0,1,2} s x stop flag {absent, present but never set, set before / during / after the connections} x pools {(1,1),(1,4),(2,2),(3,4)} x fast-CPU / slow-thread clock x connection histories {none; one short; arrival just before the idle deadline; long-lived across several deadlines; closing exactly at the deadline; streaming reply blocked on a full window when the flag is set; arrivals every 50 ms for 3 s after the flag; burst of connections then silence; client vanishing mid-message; signals arriving every 30 ms for 2.5 idle periods with nobody connected; signal storm around a long-lived connection} x seeded schedules; a second batch injects signals into select (EINTR) at random points. Oracles on simulated milliseconds: Timeout only with idle_timeout>0 and >= idle_timeout since the last accept, never while a connection is in service (fast-CPU mode), Ok only and always once the flag is set, no accept starting > 1 s after the flag takes a connection, listen returns only after every accepted connection was closed by its worker with complete replies, promptly (fast-CPU mode), and it does return.".into(),
         level: "exploration",
         real: REAL_L.to_vec(),
         stub: {
@@ -1986,6 +2040,11 @@ fn life_case(cfg: &SvcCfg, rng: &mut Rng, hist: u64, idle: u64, stopm: u64, init
     let mut conns: Vec<LConn> = Vec::new();
     let mut steps: Vec<Step> = Vec::new();
     if stopm == 2 {
+        steps.push(Step::SetStop);
+    }
+    if stopm == 3 && hist == 9 {
+        // set during the signal storm
+        steps.push(Step::Sleep(rng.range(0, 400)));
         steps.push(Step::SetStop);
     }
     let idle_ms = idle.max(1) * 1000;
@@ -2053,6 +2112,31 @@ fn life_case(cfg: &SvcCfg, rng: &mut Rng, hist: u64, idle: u64, stopm: u64, init
                 steps.push(Step::HalfClose(i));
             }
         }
+        9 => {
+            // nobody comes, but signals keep arriving faster than the poll interval (interval timer,
+            // profiler): every interrupted select must go on with the *remaining* time
+            let total = idle_ms * 5 / 2;
+            let mut t = 0;
+            while t < total {
+                steps.push(Step::Signal);
+                steps.push(Step::Sleep(30));
+                t += 30;
+            }
+        }
+        10 => {
+            // the same while a connection is open, which then closes
+            conns.push(LConn::healthy(&echo(0)));
+            steps.extend([Step::Connect(0), Step::Send(0, 10_000), Step::Quiesce]);
+            for _ in 0..rng.range(20, 60) {
+                steps.push(Step::Signal);
+                steps.push(Step::Sleep(rng.range(10, 60)));
+            }
+            steps.push(Step::HalfClose(0));
+            for _ in 0..rng.range(20, 90) {
+                steps.push(Step::Signal);
+                steps.push(Step::Sleep(rng.range(10, 60)));
+            }
+        }
         _ => {
             // a client that vanishes mid-message, next to a healthy one
             let mut c = LConn::healthy(&echo(0));
@@ -2062,7 +2146,7 @@ fn life_case(cfg: &SvcCfg, rng: &mut Rng, hist: u64, idle: u64, stopm: u64, init
             steps.extend([Step::Connect(0), Step::Send(0, 30), Step::Connect(1), Step::Send(1, 10_000), Step::Sleep(rng.range(0, 300)), Step::Close(0), Step::HalfClose(1)]);
         }
     }
-    if stopm == 3 && hist != 5 && hist != 6 {
+    if stopm == 3 && hist != 5 && hist != 6 && hist != 9 {
         // during: somewhere in the middle of the script
         let p = rng.range(1, steps.len() as u64) as usize;
         steps.insert(p, Step::SetStop);
